@@ -295,7 +295,7 @@ def blocks(tier, seed):
               nshards=164),
         Block('C_soft_fork_compatibility', fc, fork_case,
               'fork op family %s at %d free codes x every control program <= %d nodes containing the forked instruction x 4 witnesses'
-              % (list(PREDS), len(codes), maxnodes), nshards=len(fc)),
+              % (list(PREDS), len(codes), maxnodes), nshards=len(fc), backstop=7200),
     ]
 
 
